@@ -117,12 +117,14 @@ impl ValueVector {
 
     /// Sets the value at index to null.
     pub fn set_null(&mut self, index: usize) {
-        if self.validity.is_none() {
-            self.validity = Some(vec![true; self.len]);
+        // The mask covers the rows pushed so far; rows pushed after it was created
+        // are not in it yet (and read as valid), so bring it up to the current length
+        let len = self.len;
+        let validity = self.validity.get_or_insert_with(Vec::new);
+        if validity.len() < len {
+            validity.resize(len, true);
         }
-        if let Some(validity) = &mut self.validity
-            && index < validity.len()
-        {
+        if index < validity.len() {
             validity[index] = false;
         }
     }
